@@ -210,12 +210,12 @@ func (c *converter) Continue() error {
 }
 
 func (c *converter) Print(values []string) error {
-	c.addLine(fmt.Sprintf("echo \"%s\"", strings.Join(values, " ")))
+	c.addLine(c.printString(strings.Join(values, " ")))
 	return nil
 }
 
 func (c *converter) Panic(value string) error {
-	c.addLine(fmt.Sprintf("echo \"%s\"", value))
+	c.addLine(c.printString(value))
 	c.addLine("exit 1")
 	return nil
 }
@@ -585,6 +585,10 @@ func (c *converter) sliceEvaluationString(name string, index string) string {
 
 func (c *converter) sliceLenString(name string) string {
 	return fmt.Sprintf(`$(eval "echo \${#%s[@]}")`, name)
+}
+
+func (c *converter) printString(value string) string {
+	return fmt.Sprintf("printf '%%s\\n' \"%s\"", value) // printf is used instead of echo to make sure values like "-n" are not interpreted as options.
 }
 
 func (c *converter) ifStart(condition string, startWord string) error {
